@@ -139,6 +139,7 @@ def r1b(ctx, sc):
             k0 = 'C08.R1:%s:%s:' % (skel(v), nm)
             n += 1
             if not R:
+                n += 1
                 rep.fail('C08.R1', k0 + 'restore', fwhere(fn), '%s edits the buffer but never puts the hold character back [variant %s]' % (nm, v.name), variant=v.describe())
                 continue
             # b1: a restore dominates every other byte access and every store of the saved position
